@@ -461,6 +461,12 @@ Definition sd_block (d : subdir) : list (bytes * stat) :=
   (sd_name d, sd_stat d)
   :: map (fun st => (sd_name d ++ sep :: st_path st, prefix_stat (sd_name d) st)) (walk (sd_tree d)).
 
+(* SubDirFS, sub-target "name/rest": the callbacks contributed by THE sub-root called name = its own
+   Stat, then its walk at rest (walk_at: the entry rest and everything below it), prefixed *)
+Definition sd_block_at (d : subdir) (rest : bytes) : list (bytes * stat) :=
+  (sd_name d, sd_stat d)
+  :: map (fun st => (sd_name d ++ sep :: st_path st, prefix_stat (sd_name d) st)) (walk_at (sd_tree d) rest).
+
 (* proper sub-roots: single-component names, pairwise distinct, directory Stats, well-formed trees *)
 Definition sd_wf (ds : list subdir) : Prop :=
   Forall (fun d => wf_name (sd_name d) /\ st_is_dir (sd_stat d) = true /\ wf_tree (sd_tree d)) ds
